@@ -144,11 +144,26 @@ impl<T: Elem, const M: usize> VModel<T, M> {
 /// the original buffer (to be re-mapped after the operation, when the `&mut FlatVec` is dead)
 type Raw = (*const u8, usize);
 
+/// `len`-byte exact-size heap buffer with symbolic contents, `len` symbolic (<= N), start aligned to `align`.
+/// PERFORMANCE: `util::sym_slice` with a symbolic `len` makes ONE heap object of symbolic size; every write into
+/// it (length field, elements) then goes through CBMC's array theory (truncate on a 6-byte buffer: 90 s).  Here
+/// the symbolic length selects one of N+1 objects of CONSTANT size instead (same harness: 6 s); the allocation
+/// still ends exactly where the slice ends, so any access past the slice is an out-of-bounds object access.
+fn sym_exact<'a, const N: usize>(len: usize, align: usize) -> &'a mut [u8] {
+    let mut res: Option<&'a mut [u8]> = None;
+    let mut i = 0;
+    while i <= N {
+        if i == len { res = Some(sym_slice(i, align, 0, N)); }
+        i += 1;
+    }
+    res.unwrap()
+}
+
 /// any VALID state: symbolic length <= N, aligned start, symbolic contents, accepted by the real validator
 fn map_vec<'a, T: Elem, L: Len, const A: usize, const N: usize>() -> Option<(&'a mut FlatVec<T, L>, Raw)> {
     let (len, off) = any_len_off(N, A);
     kani::assume(off == 0); // a mapped value needs an aligned buffer
-    let b = sym_slice(len, A, off, N);
+    let b = sym_exact::<N>(len, A);
     let raw = (b.as_ptr(), b.len());
     match FlatVec::<T, L>::from_mut_bytes(b) {
         Ok(v) => Some((v, raw)),
@@ -211,7 +226,7 @@ fn check_vec<T: Elem, L: Len, const A: usize, const D: usize, const M: usize>(v:
 fn op_state<T: Elem, L: Len, const A: usize, const D: usize, const N: usize, const M: usize>() {
     let (len, off) = any_len_off(N, A);
     kani::assume(off == 0);
-    let b = sym_slice(len, A, off, N);
+    let b = sym_exact::<N>(len, A);
     let raw = (b.as_ptr(), b.len());
     // raw decoding first
     let mut exp_ok = len >= D;
@@ -541,7 +556,7 @@ impl<const M: usize> SModel<M> {
 fn map_str<'a, L: Len, const A: usize, const N: usize>() -> Option<(&'a mut FlatString<L>, Raw)> {
     let (len, off) = any_len_off(N, A);
     kani::assume(off == 0);
-    let b = sym_slice(len, A, off, N);
+    let b = sym_exact::<N>(len, A);
     let raw = (b.as_ptr(), b.len());
     match FlatString::<L>::from_mut_bytes(b) {
         Ok(v) => Some((v, raw)),
@@ -614,7 +629,7 @@ fn any_str2() -> ([u8; 8], usize) {
 fn s_state<L: Len, const A: usize, const N: usize, const M: usize>() {
     let (len, off) = any_len_off(N, A);
     kani::assume(off == 0);
-    let b = sym_slice(len, A, off, N);
+    let b = sym_exact::<N>(len, A);
     let raw = (b.as_ptr(), b.len());
     let mut rn = 0;
     let mut cap = 0;
